@@ -1,3 +1,4 @@
 export VERIF_REPO=$VP_RUN_REPO
-for p in C01 C02 C03 C04 C05 C06 C07 C08 C09 C10 C11 C12 C13 C14 C15 C16 C17 C18 C19 C20; do /usr/bin/time -f "$p wall=%es maxrss=%MKB" ./check $p thorough 2>&1 | grep -v "^  features\|^KNOWN" | tail -3; done
-for n in C04-link-jitter-generator-survives-failed-run C17-or-else-replaces-value-of-another-type C06-timer-queue-append-fast-path-compares-with-front C20-poisoned-gate-lock-skips-dissolve C12-child-lookup-borrows-the-running-module C05-same-task-timers-share-slot-entry C13-executor-turn-completes-after-callback-panic C18-too-few-type-arguments-accepted C08-receiver-id-only-stamped-when-unset C01-zero-bucket-cancel-binary-search-wrapped-ring C16-non-debugable-vtable-shared-across-types C09-final-gate-check-drops-message-for-restarted-module; do tools/rerun_all_seeded.sh "$n"; done
+export FOCUS=1
+for n in 'C07-*' C10-peeked-time-rounded-through-f64 C02-bucket-index-through-f64-division C16-queue-admission-charges-header-only; do tools/rerun_all_seeded.sh "$n"; done
+for p in C01 C02 C07 C10 C14 C16 C09 C05 C20; do /usr/bin/time -f "$p wall=%es maxrss=%MKB" ./check $p thorough 2>&1 | grep -v "^  features\|^KNOWN" | tail -3; done
